@@ -8,6 +8,7 @@ def run(ck):
     alloc.r1_null_deref(ck, P)
     alloc.r2_status_used(ck, P)
     alloc.r3_local_ownership(ck, P)
+    alloc.r7_result_tested(ck, P)
     region.r15_4_sentinels(ck, P)
     region.r2_failure_protocol(ck, P)
     image.r15_6_free_while_linked(ck, P)
